@@ -146,7 +146,9 @@ fn main() -> Result<()> {
     let json = matches.is_present("json");
     let output_path = matches.value_of("output").map(|str| Path::new(str));
     if json {
-        graph.display_json(output_path).unwrap_or(());
+        graph
+            .display_json(output_path)
+            .with_context(|| format!("Cannot write JSON output"))?;
     } else if !quiet {
         print!("{}", graph.pretty_print());
     }
